@@ -90,6 +90,18 @@ def obligations(tier):
                   claim='the provider still advertises only https addresses (xaddrs, base_urls, every own URL in its messages): the '
                         'scheme follows the provider\'s TLS configuration, never the server it was handed; an enforcing consumer '
                         'constructs no plaintext connection'))
+    obs.append(Ob('C19.consumer.foreign_shared_server', 'harness.C19', 'consumer_foreign_shared_server', timeout=t, functions=F,
+                  stubs=loopkit.STUBS,
+                  bounds='TLS-enforcing consumer started on a shared HTTP server that has NO TLS context (application mistake); alternative '
+                         'hostname yes / no',
+                  claim='the configuration is rejected, or base_url / NotifyTo / EndTo are https; every connection uses the client context'))
+    obs.append(Ob('C19.provider.async_client_redirect', 'harness.C19', 'async_client_redirect', timeout=t,
+                  functions=['sdc11073.pysoap.soapclient_async.SoapClientAsync.async_post_message_to'],
+                  stubs=['real SoapClientAsync; the aiohttp session is a stub that records the keyword arguments of post() and answers with '
+                         'a redirect; aiohttp itself follows redirects unless allow_redirects=False is passed (documented behaviour)'],
+                  bounds='status 301 / 302 / 307 / 308 x Location http://other, https://other, relative path',
+                  claim='the client tells aiohttp not to follow redirects and reports the answer as a failed delivery: no connection outside '
+                        'the configured TLS connection is opened'))
     obs.append(Ob('C19.consumer.enforced_restart', 'harness.C19', 'enforced_restart', timeout=t, functions=F, stubs=loopkit.STUBS,
                   bounds='consumer with force_ssl_connect through 2-3 start_all / stop_all cycles against a provider with / without '
                          'TLS; stop with / without unsubscribe; alternative hostname yes / no (16 configurations)',
